@@ -111,6 +111,31 @@ static var mk_elem(int kind, int et, int64_t v, var* slot) {
 }
 
 /* valid operations against a model: the object must remain fully usable */
+
+/* a failure is reported once: raised inside a guarding try, caught there, and gone -- the valid operations that follow
+   in the enclosing try must not meet it again (neither as a handler that runs nor as an exception that escapes) */
+static void reported_once(var c, var bad_key, const char* kind) {
+  volatile int inner = 0, outer = 0, later = 0;
+  var escaped = NULL;
+  VH_CATCH(({
+    try {
+      try { (void)get(c, bad_key); } catch (e) { inner++; }
+      (void)len(c);
+    } catch (e2) { outer++; }
+    try {
+      try { (void)get(c, bad_key); } catch (e) { inner++; }
+      try { (void)len(c); } catch (e3) { later++; }
+      (void)len(c);
+    } catch (e2) { outer++; }
+  }), escaped);
+  vh_evals(2);
+  if (inner != 2 || outer != 0 || later != 0 || escaped != NULL) {
+    char key[120]; snprintf(key, sizeof key, "C12:%s:reporting:handled-failure-reported-again", kind);
+    vh_violation(key, "a get that failed and was handled inside an enclosing try: inner handler %d time(s), later handler %d, enclosing handler %d, escaped %s", inner, later, outer, vh_exc_name(escaped));
+  }
+  vh_count("failures_handled_inside_an_enclosing_try");
+}
+
 static void seq_usable(vh_rng* r, int kind, int et, var c, int64_t* m, int* np) {
   int n = *np;
   char key[128];
@@ -186,6 +211,7 @@ static void seq_faults(vh_rng* r, int kind, int et, int size) {
   }
   FAULT(c, dump_seq, FC_NULL, "get", "NULL-index", get(c, NULL));
   if (kind != SK_TUPLE) { del_raw(good); }
+  reported_once(c, $I(L + 5), SKNAME[kind]);
   seq_usable(r, kind, et, c, m, &n);
   vh_count("sequence_objects_faulted");
   del(c);
@@ -261,6 +287,7 @@ static void map_faults(vh_rng* r, int is_tree, int strkeys, int size) {
     }
     if (!ok) { snprintf(key, sizeof key, "C12:%s:not-usable-after-failed-operations", is_tree ? "Tree" : "Table"); vh_violation(key, "%s disagrees with its model after the failed operations", kn); break; }
   }
+  reported_once(c, absent, is_tree ? "Tree" : "Table");
   vh_count("map_objects_faulted");
   del(c);
 }
